@@ -939,6 +939,13 @@ class SymbolicI:
         self.ctx.inputs[name] = v
         return SymBool(v)
 
+    def decimal(self, name, bits, scale):
+        """a binary64 input that is the decimal  n / scale  (n an unsigned integer of `bits` bits): returns (bit-vector n, SymF)"""
+        from fv import symf
+        n = z3.BitVec(name, bits)
+        self.ctx.inputs[name] = n
+        return n, symf.SymF(z3.fpDiv(symf.RNE, z3.fpToFPUnsigned(symf.RNE, n, symf.F64), symf.fval(float(scale))))
+
     def fp(self, name, lo=None, hi=None):
         """a binary64 input (finite, within [lo, hi] when given)"""
         from fv import symf
@@ -1074,7 +1081,7 @@ def model_values(ctx, m):
     out = {}
     for name, v in ctx.inputs.items():
         val = m.eval(v, model_completion=True)
-        if z3.is_int_value(val):
+        if z3.is_int_value(val) or z3.is_bv_value(val):
             out[name] = val.as_long()
         elif z3.is_rational_value(val):
             out[name] = f"{val.numerator_as_long()}/{val.denominator_as_long()}"
@@ -1134,6 +1141,10 @@ class ConcreteI:
 
     def int(self, name, lo=None, hi=None):
         return int(self._get(name))
+
+    def decimal(self, name, bits, scale):
+        n = int(self._get(name))
+        return n, n / float(scale)
 
     def fp(self, name, lo=None, hi=None):
         v = self._get(name)
